@@ -1387,6 +1387,78 @@ def merge_map(a):
         a.candidates.append(c)
 
 
+def merge_list(a):
+    """C17 `nothing is lost`: the list / list arm of PathAwareValue::merge. Two lists merge into the receiver's own vector extended,
+    once, by the second list's own vector (all of it, in its order: Vec::extend is std's); nothing else is stored or dropped and the
+    result is Ok(receiver). An `extend` anywhere else (other kinds, a different vector, a second call) refutes."""
+    PV = enum_variants(a.src, "rules/path_value.rs", "PathAwareValue")
+    MAP, LIST = PV.index("Map"), PV.index("List")
+    ex = a.exec(r"(?:rules::)?path_value::<impl at guard/src/rules/path_value\.rs:\d+:\d+: \d+:\d+>::merge",
+                {"contains_key": lambda ex, av: ("bool", ex.fresh("Bool", "has")), "insert": mirexec.m_option,
+                 "next": mirexec.m_iter_next, "into_iter": mirexec.m_new_iter, "iter": mirexec.m_new_iter,
+                 "is_null": lambda ex, av: ("bool", ex.fresh("Bool", "isnull")), "extend_str": lambda ex, av: ex.opq()},
+                log=("push", "extend", "append", "extend_from_slice", "truncate", "clear", "retain", "dedup", "drain", "pop",
+                     "reverse", "sort", "swap_remove", "remove"), unroll=2, max_paths=40000)
+    a.fns.append("rules::path_value::PathAwareValue::merge (list arm)")
+    me, other = ex.arg_env["_1"], ex.arg_env["_2"]
+    d_me, d_ot = disc(ex, me), disc(ex, other)
+    both_lists = f"(and (= {d_me} {LIST}) (= {d_ot} {LIST}))"
+    MUT = ("extend", "append", "extend_from_slice", "truncate", "clear", "retain", "dedup", "drain", "pop", "reverse", "sort",
+           "swap_remove", "remove", "insert", "push")
+    bad, n = [], 0
+    for p in ex.paths:
+        r = p.ret
+        if p.outcome == "panic" or not r or r[0] != "enum" or r[1] != "Result":
+            bad.append(pc_term(p.pc))
+            continue
+        muts = [e for e in p.events if e[0] == "call" and e[1] in MUT]
+        exts = [e for e in muts if e[1] == "extend"]
+        ok_shape = False
+        if len(muts) == 1 and len(exts) == 1 and len(exts[0][2]) == 2:
+            o1, o2 = origin(ex, exts[0][2][0]), origin(ex, exts[0][2][1])
+            ok_shape = (same(o1[0], me) and o1[1] == ["as List.0", ".1"] and same(o2[0], other) and o2[1] == ["as List.0", ".1"])
+        n += len(exts)
+        okv = r[3].get("Ok") if isinstance(r[3], dict) else None
+        ret_me = okv is not None and same(okv, me)
+        good_lists = f"(and (= {r[2]} 0) {'true' if (ok_shape and ret_me) else 'false'})"
+        # outside the list / list case no vector operation of the list arm may happen
+        stray = "true" if not exts else "false"
+        bad.append(f"(and {pc_term(p.pc)} (not (ite {both_lists} {good_lists} {stray})))")
+    c = a.discharge("PathAwareValue::merge/lists", ex, bad,
+                    f"merge of two lists ({n} extend calls over all paths): the receiver's own vector is extended exactly once by the "
+                    "second list's own vector (std's Vec::extend: every element, in order), no other vector operation (truncate / "
+                    "dedup / retain / pop / insert ...) on the path, result Ok(receiver); no extend unless both operands are lists")
+    if c:
+        c["replay"] = replay_param_lists(a)
+        c["reproduced"] = c["replay"].get("reproduced", False)
+        a.candidates.append(c)
+
+
+def replay_param_lists(a):
+    """list-valued documents merged with list-valued parameters (-i): every element of both must be visible to a rule, duplicates
+    and order included"""
+    import os, shutil, subprocess, tempfile
+    exe = a.cli()
+    if not exe:
+        return {"reproduced": False, "note": "native build failed"}
+    d = tempfile.mkdtemp(prefix="cfnverif_replay_")
+    out = []
+    try:
+        cases = [("[1, 2]", "[3]", "[1, 2, 3]"), ("[1, 1]", "[1]", "[1, 1, 1]"), ("[]", "[7, 7]", "[7, 7]"), ("[5]", "[]", "[5]"),
+                 ("[3, 1]", "[2, 1]", "[3, 1, 2, 1]"), ("[[1]]", "[[1]]", "[[1], [1]]"), ("[{\"a\": 1}]", "[{\"a\": 1}]", "[{\"a\": 1}, {\"a\": 1}]")]
+        for i, (par, doc, want) in enumerate(cases):
+            pf, df, rf = (os.path.join(d, f"p{i}.json"), os.path.join(d, f"d{i}.json"), os.path.join(d, f"r{i}.guard"))
+            open(pf, "w").write(par); open(df, "w").write(doc)
+            open(rf, "w").write(f"rule all_there {{ this == {want} }}\n")
+            r = subprocess.run([exe, "validate", "-r", rf, "-d", df, "-i", pf], capture_output=True, text=True, timeout=60)
+            if r.returncode != 0:
+                out.append({"parameters": par, "document": doc, "expected_merged": want, "exit": r.returncode,
+                            "stdout": r.stdout[-300:], "stderr": r.stderr[-200:]})
+    finally:
+        shutil.rmtree(d, ignore_errors=True)
+    return {"reproduced": bool(out), "mismatches": out, "cases": 7}
+
+
 def replay_param_conflict_values(a):
     """the same top-level key in two sources, for every kind of first / second value (null, scalar, list, map), in both
     orders and as parameter-vs-parameter and parameter-vs-document: always an error exit, never a silent choice"""
@@ -4907,6 +4979,6 @@ SITES = {
     "C03": [param_rule_call],
     "C04": [rule_status_semantics, root_scope_rule_table, scope_delegations, scope_resolution],
     "C01": [rule_status_semantics, root_scope_rule_table, scope_discipline, scope_resolution, scope_delegations, variable_tables, param_rule_call, param_ctx_resolve],
-    "C17": [merge_map, merge_unwrap, param_files_fold_step, data_input_params_wiring, structured_merge_closure, supported_extension_predicate, walk_dir_unfiltered],
+    "C17": [merge_map, merge_list, merge_unwrap, param_files_fold_step, data_input_params_wiring, structured_merge_closure, supported_extension_predicate, walk_dir_unfiltered],
     "C08": [merge_unwrap, rulegen_unwrap, test_exit_code_domain, report_builder_total_on_unary],
 }
